@@ -249,6 +249,11 @@ def run(shard, ctx):
         other = cli_runs.text_case(rng, scratch / f"o{i}", fmt="agp", tagged=True, two_hap=True)
         try:
             seeds = (1, rng.choice([2, 31337, rng.randint(3, 10**6)])) if shard["tier"] == "quick" else (1, 2, 31337, rng.randint(3, 10**6))
+            if i % 2 == 1:
+                # several special tags on one Pretext scaffold: tag sets are iterated while naming
+                cli_runs.add_tag_noise(rng, cr)
+                ctx.count("cases:tag-noise")
+                seeds = (1, 2, 3, 4, 5, 6) if shard["tier"] == "quick" else tuple(range(1, 13))
             check_case(ctx, cr, out_name, rng, other, seeds)
         finally:
             cli_runs.cleanup(cr)
@@ -289,5 +294,6 @@ def gates(c, tier):
         "format-leg-ok": 8,
         "asm-format-ok": 8,
         "specimens-ok": 12,
+        "cases:tag-noise": 20,
     }
     return [f"{k}>={v} (got {c.get(k, 0)})" for k, v in need.items() if c.get(k, 0) < v]
